@@ -169,3 +169,32 @@ def run_shift(rep: Report, prog: Program, tier: str) -> None:
             tuple((i * 30000, 160 * i, 0.02 * i) for i in range(5))]
     for k, arr in enumerate(seqs):
         compare(f"receiver statistics, sequence #{k}", stats_case(arr), [(500, 16000), (M16 - 3, M32 - 500), (M16 - 1, M32 - 1)], sadd)
+
+    # ---------------- (f) the receiver's RTP timestamp unwrapping (TimestampMapper.map): the mapped timestamps are the running sums of the increments, from any origin
+    TM = prog.cls("rtcrtpreceiver.TimestampMapper")
+    tmap = prog.func("rtcrtpreceiver.TimestampMapper.map")
+
+    def tm_case(increments: Tuple[int, ...]):
+        def fn(_seq0: int, ts0: int):
+            oh = make_hook(prog, None)
+            ev_ = Evaluator(prog, prog.modules["rtcrtpreceiver"], None, {}, oh)
+            tm = oh.instantiate(TM, [], {}, ev_)
+            out = []
+            ts = ts0
+            for inc in (0,) + increments:
+                ts = (ts + inc) % M32
+                out.append(oh.run_method(tmap, tm, [ts], {}))
+            return out
+        return fn
+    incs = [tuple([3000] * 12), tuple([1 << 30] * 9), (90000, 1, 3000, (1 << 31) - 1, 3000, (1 << 31) - 1, 3000, 3000, (1 << 31) - 5, 7, (1 << 31) - 1, 3000)]
+    for k, inc in enumerate(incs):
+        compare(f"timestamp unwrapping, increments #{k}", tm_case(inc), [(0, 0), (0, 500), (0, M32 - 6000), (0, M32 - 1), (0, 1 << 31)], tmap)
+        # and the values themselves: running sums
+        got = tm_case(inc)(0, M32 - 6000)
+        want = [sum(inc[:i]) for i in range(len(inc) + 1)]
+        if got == want:
+            rep.ok(RULE, f"timestamp unwrapping, increments #{k}: running sums", sample=str(got[-3:]))
+        else:
+            bad = next(i for i, (a, b) in enumerate(zip(got, want)) if a != b)
+            rep.fail(mk_finding(prog, PROP, RULE, tmap, tmap.node, f"[timestamp unwrapping, increments #{k}, first timestamp {M32 - 6000}] value #{bad} is mapped to {got[bad]}, the running sum of the increments is {want[bad]}",
+                                construct=f"timestamp unwrapping #{k}"))
